@@ -93,6 +93,10 @@ func (rt *runtime) cmplFunctionDeclaration(list []*nodeFunctionLiteral, eval boo
 		value := objectValue(rt.newNodeFunction(function, executionContext.lexical))
 		if !stash.hasBinding(name) {
 			stash.createBinding(name, eval, value)
+			if !stash.hasBinding(name) {
+				// 10.2.1.2.2: the global object is not extensible.
+				panic(rt.panicTypeError("cannot declare %s: the global object is not extensible", name))
+			}
 		} else {
 			if stash == stasher(rt.globalStash) {
 				// 10.5 step 5.e: a property of the global object that is already there is
@@ -122,6 +126,10 @@ func (rt *runtime) cmplVariableDeclaration(list []string, eval bool) {
 	for _, name := range list {
 		if !stash.hasBinding(name) {
 			stash.createBinding(name, eval, Value{}) // TODO strict?
+			if !stash.hasBinding(name) {
+				// 10.2.1.2.2: the global object is not extensible.
+				panic(rt.panicTypeError("cannot declare %s: the global object is not extensible", name))
+			}
 		}
 	}
 }
